@@ -15,6 +15,7 @@ import types
 from typing import Any
 
 from easynetwork.clients.async_tcp import AsyncTCPNetworkClient
+from easynetwork.converter import AbstractPacketConverter
 from easynetwork.clients.tcp import TCPNetworkClient
 from easynetwork.exceptions import ClientClosedError
 from easynetwork.lowlevel.api_async.backend._asyncio.backend import AsyncIOBackend
@@ -33,7 +34,7 @@ from ..world import VSelector, World
 PROPERTY = "C03"
 LEVEL = "model_checking"
 RULE = (
-    "streams of 0..3 line packets + optional trailing partial frame; the peer closes after EVERY byte offset 0..len(stream); "
+    "streams of 0..3 line packets + optional trailing partial frame (and streams of 2..3 packets whose VALUES are 0 / None / False, produced by a converter); the peer closes after EVERY byte offset 0..len(stream); "
     "blocking subjects {StreamEndpoint, TCPNetworkClient} x {copying, buffered} x max_recv_size {2, 64}: every chunking (the next k "
     "bytes, every k, arrive either before a call or while the call waits) x every call history of <= 5 calls (thorough 6) over "
     "{recv_packet(None), recv_packet(0.5), recv_packet(0), next(iter_received_packets(0.5)), next(iter_received_packets(0))} with "
@@ -60,14 +61,39 @@ def _shim_selectors(world: World) -> types.ModuleType:
     return m
 
 
-def make_stream(n: int, partial: bool) -> tuple[bytes, list[str]]:
-    s = b"".join(FRAMES[:n]) + (PARTIAL if partial else b"")
-    return s, [f[:-1].decode() for f in FRAMES[:n]]
+# "falsy" alphabet: packets whose VALUE is None / 0 / False (through a converter): a receive path that tests the packet instead of
+# catching StopIteration would drop them when they are served from the buffer
+FALSY_FRAMES = [b"0\n", b"N\n", b"F\n"]  # None second, False third: both can be served from the buffer
+FALSY_VALUES: dict[str, Any] = {"N": None, "0": 0, "F": False}
 
 
-def done_frames(stream: bytes, pos: int) -> list[str]:
+class FalsyConverter(AbstractPacketConverter[Any, str]):
+    __slots__ = ()
+
+    def create_from_dto_packet(self, packet: str) -> Any:
+        return FALSY_VALUES.get(packet, packet)
+
+    def convert_to_dto_packet(self, obj: Any) -> str:
+        return next((k for k, v in FALSY_VALUES.items() if v is obj), str(obj))
+
+
+def make_stream(n: int, partial: bool, falsy: bool = False) -> tuple[bytes, list[Any]]:
+    frames = FALSY_FRAMES if falsy else FRAMES
+    s = b"".join(frames[:n]) + (PARTIAL if partial else b"")
+    return s, done_frames(s, len(s), falsy)
+
+
+def done_frames(stream: bytes, pos: int, falsy: bool = False) -> list[Any]:
     parts = stream[:pos].split(b"\n")
-    return [p.decode() for p in parts[:-1]]
+    out: list[Any] = [p.decode() for p in parts[:-1]]
+    return [FALSY_VALUES.get(x, x) for x in out] if falsy else out
+
+
+def make_protocol(cfg: dict) -> Any:
+    conv = FalsyConverter() if cfg.get("falsy") else None
+    if cfg["proto"] == "copy":
+        return StreamProtocol(StringLineSerializer(), conv)
+    return BufferedStreamProtocol(StringLineSerializer(limit=16), conv)
 
 
 def canon_receiver(subject: Any, kind: str) -> Any:
@@ -86,7 +112,7 @@ def canon_receiver(subject: Any, kind: str) -> Any:
 
 
 def run_sync(ctx: Ctx, cfg: dict) -> dict:
-    stream, packets = make_stream(cfg["n"], cfg["partial"])
+    stream, packets = make_stream(cfg["n"], cfg["partial"], cfg.get("falsy", False))
     close_off = cfg["close"]
     world = World(ctx, horizon=3000)
     world.install_clock()
@@ -96,7 +122,7 @@ def run_sync(ctx: Ctx, cfg: dict) -> dict:
     results: list[tuple] = []
     bad: list[str] = []
     try:
-        proto = StreamProtocol(StringLineSerializer()) if cfg["proto"] == "copy" else BufferedStreamProtocol(StringLineSerializer(limit=16))
+        proto = make_protocol(cfg)
         if cfg["subject"] == "endpoint":
             tr = SocketStreamTransport(sock, math.inf, selector_factory=lambda: VSelector(world))
             subj: Any = StreamEndpoint(tr, proto, max_recv_size=cfg["rsize"])
@@ -169,13 +195,13 @@ def run_sync(ctx: Ctx, cfg: dict) -> dict:
             except OSError as exc:
                 res = ("oserror", type(exc).__name__)
             results.append((kind, tmo) + res)
-            avail = done_frames(stream, st["pos"])
+            avail = done_frames(stream, st["pos"], cfg.get("falsy", False))
             all_done = st["eof"] and returned == len(avail)
             # ---- oracle for this call ----
             if res[0] == "P":
                 if eof_reported:
                     bad.append("data-returned-after-end-of-stream-was-reported")
-                elif returned >= len(avail) or res[1] != avail[returned]:
+                elif returned >= len(avail) or res[1] != avail[returned] or type(res[1]) is not type(avail[returned]):
                     bad.append("wrong-or-incomplete-packet-returned")
                 returned += 1
             elif res[0] == "timeout":
@@ -232,6 +258,12 @@ def sync_configs(tier: str) -> list[dict]:
                         for close in closes:
                             out.append({"kind": "sync", "subject": subject, "proto": proto, "rsize": rsize, "n": n, "partial": partial, "close": close,
                                         "calls": 4 if tier == "quick" else 6, "resets": subject == "client" and (tier == "thorough" or rsize == 64)})
+                # packets whose value is None / 0 / False
+                for n in (2, 3):
+                    stream, _ = make_stream(n, False, True)
+                    for close in ((len(stream),) if tier == "quick" else range(2, len(stream) + 1)):
+                        out.append({"kind": "sync", "subject": subject, "proto": proto, "rsize": rsize, "n": n, "partial": False, "close": close, "falsy": True,
+                                    "calls": n + 2, "resets": False})
     return out
 
 
@@ -240,7 +272,7 @@ def sync_configs(tier: str) -> list[dict]:
 
 
 def run_async(ctx: Ctx, cfg: dict) -> dict:
-    stream, packets = make_stream(cfg["n"], cfg["partial"])
+    stream, packets = make_stream(cfg["n"], cfg["partial"], cfg.get("falsy", False))
     close_off = cfg["close"]
     data = stream[:close_off]
     bounds = [0] + [c for c in cfg["cuts"] if c < len(data)] + [len(data)]
@@ -268,7 +300,7 @@ def run_async(ctx: Ctx, cfg: dict) -> dict:
 
     async def main(loop: Any) -> None:
         backend = AsyncIOBackend()
-        proto = StreamProtocol(StringLineSerializer()) if cfg["proto"] == "copy" else BufferedStreamProtocol(StringLineSerializer(limit=16))
+        proto = make_protocol(cfg)
         if cfg["subject"] == "endpoint":
             tr = await backend.wrap_stream_socket(sock)
             subj: Any = AsyncStreamEndpoint(tr, proto, max_recv_size=cfg["rsize"])
@@ -293,12 +325,12 @@ def run_async(ctx: Ctx, cfg: dict) -> dict:
             except OSError as exc:
                 res = ("oserror", type(exc).__name__)
             results.append((kind, tmo) + res)
-            avail = done_frames(stream, st["pos"])
+            avail = done_frames(stream, st["pos"], cfg.get("falsy", False))
             all_done = st["eof"] and returned == len(avail)
             if res[0] == "P":
                 if eof_reported:
                     bad.append("data-returned-after-end-of-stream-was-reported")
-                elif returned >= len(avail) or res[1] != avail[returned]:
+                elif returned >= len(avail) or res[1] != avail[returned] or type(res[1]) is not type(avail[returned]):
                     bad.append("wrong-or-incomplete-packet-returned")
                 returned += 1
             elif res[0] == "eof":
@@ -308,7 +340,7 @@ def run_async(ctx: Ctx, cfg: dict) -> dict:
             elif res[0] == "stop":
                 # only what was delivered well before the deadline counts as 'available in time'
                 in_time = max([p for (t, p) in deliveries if t < t0 + tmo - 1e-3], default=0)
-                if returned < len(done_frames(stream, in_time)) and tmo != 0:
+                if returned < len(done_frames(stream, in_time, cfg.get("falsy", False))) and tmo != 0:
                     bad.append("iterator-stopped-although-a-complete-packet-was-available")
             else:
                 bad.append("unexpected-" + res[1])
@@ -354,6 +386,11 @@ def async_configs(tier: str) -> list[dict]:
                             for h in hs:
                                 out.append({"kind": "async", "subject": subject, "proto": proto, "rsize": 64, "n": n, "partial": partial, "close": close,
                                             "cuts": list(cuts), "history": [list(x) for x in h]})
+            stream, _ = make_stream(3, False, True)
+            for cuts in [()] + [(i,) for i in range(1, len(stream))]:
+                for h in (ASYNC_HISTORIES if subject == "client" else ASYNC_HISTORIES[:1]):
+                    out.append({"kind": "async", "subject": subject, "proto": proto, "rsize": 64, "n": 3, "partial": False, "close": len(stream), "falsy": True,
+                                "cuts": list(cuts), "history": [list(x) for x in h]})
     return out
 
 
@@ -393,7 +430,7 @@ def run_job(job: dict) -> JobResult:
             for b, (ctx, obs) in found.items():
                 res.violations.append(Violation(
                     f"sync/{cfg['subject']}/{cfg['proto']}/{b}",
-                    f"{cfg['subject']} ({cfg['proto']}, max_recv_size={cfg['rsize']}) stream={make_stream(cfg['n'], cfg['partial'])[0]!r} peer closes after {cfg['close']} bytes: "
+                    f"{cfg['subject']} ({cfg['proto']}, max_recv_size={cfg['rsize']}) stream={make_stream(cfg['n'], cfg['partial'], cfg.get('falsy', False))[0]!r} peer closes after {cfg['close']} bytes: "
                     f"calls={obs['results']} delivered={obs['pos']} eof={obs['eof']} choices={ctx.choices}",
                     {"kind": "sync", "cfg": cfg, "choices": list(ctx.choices)},
                 ))
@@ -423,7 +460,7 @@ def run_job(job: dict) -> JobResult:
             for b, (ctx, obs) in found.items():
                 res.violations.append(Violation(
                     f"async/{cfg['subject']}/{cfg['proto']}/{b}",
-                    f"async {cfg['subject']} ({cfg['proto']}) stream={make_stream(cfg['n'], cfg['partial'])[0]!r} close after {cfg['close']} cuts={cfg['cuts']} history={cfg['history']}: "
+                    f"async {cfg['subject']} ({cfg['proto']}) stream={make_stream(cfg['n'], cfg['partial'], cfg.get('falsy', False))[0]!r} close after {cfg['close']} cuts={cfg['cuts']} history={cfg['history']}: "
                     f"calls={obs['results']} schedule={obs['trace']} choices={ctx.choices}",
                     {"kind": "async", "cfg": cfg, "choices": list(ctx.choices)},
                 ))
